@@ -93,8 +93,8 @@ impl FixtureDatabase {
         self.usages == old(self).usages,
         self.usage_by_fixture == old(self).usage_by_fixture,
         self.definitions_version == old(self).definitions_version,
-@closure 1 |def: &FixtureDefinition| -> (keep: bool) ensures keep == (pbv(&def.file_path) != pbv(file_path))
-@closure 2 |_k: &String, defs: &Vec<FixtureDefinition>| -> (b: bool) ensures b == (defs@.len() == 0)
+@closure retain:1 |def: &FixtureDefinition| -> (keep: bool) ensures keep == (pbv(&def.file_path) != pbv(file_path))
+@closure remove_if:1 |_k: &String, defs: &Vec<FixtureDefinition>| -> (b: bool) ensures b == (defs@.len() == 0)
 @loopstart 1
     let ghost m1 = self.definitions.m();
 @after should_remove 1
@@ -163,12 +163,12 @@ impl FixtureDatabase {
         final(self).file_definitions == old(self).file_definitions,
         final(self).definitions_version == old(self).definitions_version,
         final(self).rest() == old(self).rest(),
-@closure 1 |entry: RefMulti<'_, String, Vec<(PathBuf, FixtureUsage)>>| -> (s: String) ensures s@ == entry.k@
-@closure 2 |path_u: &(PathBuf, FixtureUsage)| -> (b: bool) ensures b == (pbv(&path_u.0) == pbv(file_path))
-@closurelet 2 let (path, _) = path_u;
-@closure 3 |path_u: &(PathBuf, FixtureUsage)| -> (b: bool) ensures b == (pbv(&path_u.0) != pbv(file_path))
-@closurelet 3 let (path, _) = path_u;
-@closure 4 |_k: &String, usages: &Vec<(PathBuf, FixtureUsage)>| -> (b: bool) ensures b == (usages@.len() == 0)
+@closure map:1 |entry: RefMulti<'_, String, Vec<(PathBuf, FixtureUsage)>>| -> (s: String) ensures s@ == entry.k@
+@closure any:1 |path_u: &(PathBuf, FixtureUsage)| -> (b: bool) ensures b == (pbv(&path_u.0) == pbv(file_path))
+@closurelet any:1 let (path, _) = path_u;
+@closure retain:1 |path_u: &(PathBuf, FixtureUsage)| -> (b: bool) ensures b == (pbv(&path_u.0) != pbv(file_path))
+@closurelet retain:1 let (path, _) = path_u;
+@closure remove_if:1 |_k: &String, usages: &Vec<(PathBuf, FixtureUsage)>| -> (b: bool) ensures b == (usages@.len() == 0)
 @derefcmp path file_path 1
 @derefcmp path file_path 2
 @after all_keys 1
